@@ -231,6 +231,26 @@ func aliasMessage(r *RNG, big bool, salt byte) []byte {
 			body = append(body, leaf(0)...)
 		}
 	}
+	// sizes around the pooled buffer: the body (not the message) decides whether it is pooled, so
+	// messages of 1024..1048 octets in all are padded to an exact size with an unknown AVP
+	if !big && r.Chance(20) {
+		T := []int{1016, 1020, 1024, 1028, 1032, 1036, 1040, 1044, 1048}[r.Intn(9)]
+		for len(body) > T-20-8 && len(body) > 0 {
+			body = body[:0]
+			body = append(body, leaf(1)...)
+		}
+		if rem := T - 20 - len(body); rem >= 8 {
+			pad := rawAVP(uint32(70000+r.Intn(100)), 0, 0, rem, fill(rem-8), true)
+			if r.Bool() { // ... at the front, or wrapped in a group at the end
+				body = append(pad, body...)
+			} else if rem >= 16 {
+				inner := rawAVP(uint32(70000+r.Intn(100)), 0, 0, rem-8, fill(rem-16), true)
+				body = append(body, rawAVP(99904, 0x40, 0, rem, inner, true)...)
+			} else {
+				body = append(body, pad...)
+			}
+		}
+	}
 	return append(rawHeader(20+len(body), 0x80, 280, 0, uint32(salt)+1, uint32(salt)+1), body...)
 }
 
